@@ -5,6 +5,9 @@ import vlib
 
 def run(chk):
     q = chk.quick
+    # (B1) System end to end on the exact field model, random-oracle challenges (MC_Protocol: Completeness, RoleSync, FSBinding,
+    # RejectsInvalid, MegaIdentity), with non-vacuity probes
+    vlib.protocol_mc(chk)
     fl = dict(vlib.flags(O=1), OPS_MODE="embed")
     plan = [("toy79", "honest", 200 if q else 5000), ("toy31723", "mixed", 250 if q else 6000), ("toy7", "honest", 100 if q else 2000)]
     for i, (curve, kind, n) in enumerate(plan):
